@@ -163,6 +163,18 @@ func main() {
 		}
 		emitPair(a, b)
 	}
+	// ---- Requirement.Insert (in-place extension of the value set)
+	for i := 0; i < 120; i++ {
+		cs := []call{kit.Pick(c.Rand, singles)}
+		if c.Rand.Bool() {
+			cs = kit.Pick(c.Rand, doubles)
+		}
+		items := [][]string{{"a"}, {"b", "zz"}, {"1", "05"}, {}, {"a", "a"}, {"9223372036854775807"}}[c.Rand.Intn(6)]
+		r := build("k", cs)
+		r.Insert(items...)
+		c.Count("insert:" + shape(r))
+		c.AddCase(fmt.Sprintf("CaseInsert %s %s %s %s", pList, calls(cs), kit.GStrs(items), observe(r)), caseJSON{Kind: "insert", A: cs}, "insert:"+calls(cs)+kit.GStrs(items))
+	}
 	// ---- requirement sets: Compatible / Intersects, key + value normalisation
 	keys := []string{"k1", "k2", corev1.LabelTopologyZone, "beta.kubernetes.io/arch", corev1.LabelArchStable, corev1.LabelFailureDomainBetaZone}
 	v1.NormalizedLabelValues[corev1.LabelTopologyZone] = map[string]string{"b": "a"}
